@@ -8,6 +8,7 @@ Please consult the docs for the main htm package.  For example, in IPython:
 
 """
 from __future__ import print_function
+import os
 from sys import stdout
 import numpy as np
 
@@ -876,8 +877,12 @@ def read_pairs(filename, verbose=False):
         stdout.write("Reading pairs from file: %s\n" % filename)
 
     filename = check_filename(filename)
-    with Recfile(filename, "r", dtype=dtype, delim=" ") as robj:
-        data = robj.read()
+    if os.path.getsize(filename) == 0:
+        # no pairs were found, the file is empty
+        data = np.zeros(0, dtype=dtype)
+    else:
+        with Recfile(filename, "r", dtype=dtype, delim=" ") as robj:
+            data = robj.read()
 
     if verbose:
         stdout.write("    read %d pairs\n" % data.size)
